@@ -350,8 +350,9 @@ def live_sessions(run, thorough):
     from minecraft.networking.packets import clientbound, serverbound
     rng = run.rng('c01-live')
     n_cases = 160 if thorough else 28
-    for ci in range(n_cases):
-        mode = LIVE_MODES[ci % len(LIVE_MODES)]
+    n_fault = 48 if thorough else 16
+    for ci in range(n_cases + n_fault):
+        mode = LIVE_MODES[ci % len(LIVE_MODES)] if ci < n_cases else 'none'
         pv = rng.choice((47, 340, 578, 757))
         threshold = rng.choice((None, 0, 1, 64, 256))
         encrypted = rng.random() < 0.4
@@ -398,6 +399,34 @@ def live_sessions(run, thorough):
         rec = pc.Recorder()
         conn = pc.make_connection(server.port, rec, allowed_versions={pv})
         fired = []
+        # fault injection: in some plain sessions one send() call of the
+        # client is refused once with a transient error (the kernel out of
+        # buffers, an interrupted call).  Whatever the library makes of it, the
+        # server must see whole frames in order - a clean prefix if an error
+        # is reported, everything if not.
+        fault = None
+        if mode == 'none' and n < 100 and (
+                ci >= n_cases or (ci // len(LIVE_MODES)) % 2 == 0):
+            import errno as _errno
+            errnos = (_errno.ENOBUFS, _errno.EINTR, _errno.EAGAIN,
+                      _errno.ENOMEM)
+            fault = {'at': rng.randrange(1, 2 * n) if ci < n_cases
+                     else 1 + (ci - n_cases) % 6, 'n': 0, 'armed': False,
+                     'errno': rng.choice(errnos) if ci < n_cases
+                     else errnos[(ci - n_cases) // 6 % 4],
+                     'done': False}
+            w['send_refused_once'] = {'send_no': fault['at'],
+                                      'errno': _errno.errorcode[
+                                          fault['errno']]}
+
+            def send_fault(kind, proxy, data, fault=fault):
+                if kind != 'send' or not fault['armed'] or fault['done']:
+                    return
+                fault['n'] += 1
+                if fault['n'] == fault['at']:
+                    fault['done'] = True
+                    raise OSError(fault['errno'], 'injected transient error')
+            conn.vf_send_hook = send_fault
 
         def chat(text):
             p = serverbound.play.ChatPacket()
@@ -423,6 +452,8 @@ def live_sessions(run, thorough):
                 early=mode.endswith('early'))
 
         def queue_all(_p=None):
+            if fault is not None:
+                fault['armed'] = True
             for m in msgs:
                 conn.write_packet(chat(m))
             if mode == 'bulk-disconnect':
@@ -478,6 +509,13 @@ def live_sessions(run, thorough):
             run.inconclusive_because('live: the session did not end')
             continue
         got = state['got']
+        if fault is not None and fault['done']:
+            run.count('live_sessions_with_a_refused_send')
+            if got == expect[:len(got)] and (len(got) == len(expect)
+                                             or rec.exceptions):
+                run.count('live_packets_matched', len(got))
+                continue
+            w['client_reported_error'] = bool(rec.exceptions)
         if got != expect:
             first = next((j for j, (a, b) in enumerate(zip(got, expect))
                           if a != b), min(len(got), len(expect)))
